@@ -222,8 +222,8 @@ pub struct Shim {
     pub tls: Option<Arc<rustls::ServerConfig>>,
     pub iterate_params: bool,
     pub param_probe: Option<ParamProbe>,
-    /// executions (by ordinal) whose parameters the shim does not look at
-    pub skip_iter: Vec<bool>,
+    /// per execution (by ordinal): 0 = the shim reads every parameter, 1 = none, 2 = only the first
+    pub skip_iter: Vec<u8>,
     pub n_exec: usize,
 }
 
@@ -370,8 +370,12 @@ impl<'s, W: Read + Write> MysqlShim<W> for &'s mut Shim {
         let mut ps = Vec::new();
         let ord = self.n_exec;
         self.n_exec += 1;
-        if self.iterate_params && !self.skip_iter.get(ord).copied().unwrap_or(false) {
+        let mode = self.skip_iter.get(ord).copied().unwrap_or(0);
+        if self.iterate_params && mode != 1 {
             for (i, p) in params.into_iter().enumerate() {
+                if mode == 2 && i >= 1 {
+                    break;
+                }
                 if let Some(probe) = self.param_probe.as_mut() {
                     probe(i, &p);
                 }
